@@ -31,7 +31,7 @@ STRUCT = {"stack", "stackdict", "stackdictv", "append", "appendt", "slice", "mas
 
 
 def generate(rng, tier):
-    n = 2500 if tier == "quick" else 24000
+    n = 6000 if tier == "quick" else 24000
     for i in range(n):
         yield {"fam": "history", "seed": rng.randrange(1 << 30), "nsteps": 12 if tier == "quick" or i % 3 else 36}
 
